@@ -99,6 +99,17 @@ def _fn_of(n):
     return None
 
 
+def ctext_of(e):
+    """closed-form text of an expression that is linked into a function's tree (no blanks); its literal text otherwise"""
+    f = _fn_of(e)
+    if f is not None:
+        try:
+            return f.ctext(e)
+        except Exception:       # noqa
+            pass
+    return unparse(e).replace(' ', '')
+
+
 def same(e, text):
     """does expression e denote `text`?  Either literally, or in closed form (locals replaced by the definition that reaches the use):
     `size = query.size; f(size)` passes `query.size`.  Blanks are ignored."""
@@ -110,9 +121,17 @@ def same(e, text):
     if f is None:
         return False
     try:
-        return f.ctext(e) == want
+        ce = f.ctext(e)
+        if ce == want:
+            return True
+        # `text` may itself name a local of the function: both sides in closed form, evaluated where e is
+        at = f.cfg.node_for(e)
+        if at is not None:
+            w = ast.parse(text, mode='eval').body
+            return f.canon.text(w, at=at) == ce
     except Exception:       # noqa
         return False
+    return False
 
 
 def same_args(args, texts):
